@@ -171,6 +171,29 @@ def work(args):
             names[role] = (v, c)
         elif role in defaults:
             names[role] = defaults[role]
+    if use_kconfig and rng.random() < 0.4:
+        # the build configuration gives a *default* vendor/class pair to another role (roles exchanged, or a default class moved):
+        # the configuration must win over the built-in table
+        conf_roles = [r for r in roles if r in CONFIGURABLE and not any(CONFIGURABLE[r] + "_" in ln for ln in kconfig_lines)]
+        donors = [r for r in defaults]
+        if conf_roles and donors:
+            target = rng.choice(conf_roles)
+            donor = rng.choice([r for r in donors if r != target] or donors)
+            v, c = defaults[donor]
+            kconfig_lines.append(f'SB_CONFIG_SUIT_MPI_{CONFIGURABLE[target]}_VENDOR_NAME="{v}"')
+            kconfig_lines.append(f'SB_CONFIG_SUIT_MPI_{CONFIGURABLE[target]}_CLASS_NAME="{c}"')
+            names[target] = (v, c)
+            if target not in chosen:
+                chosen.append(target)
+            if donor != target and names.get(donor) == (v, c):
+                # the donor role no longer owns that class; exchange when possible, else leave the donor role empty
+                if donor in CONFIGURABLE and target in defaults and rng.random() < 0.6 and not any(CONFIGURABLE[donor] + "_" in ln for ln in kconfig_lines):
+                    v2, c2 = defaults[target]
+                    kconfig_lines.append(f'SB_CONFIG_SUIT_MPI_{CONFIGURABLE[donor]}_VENDOR_NAME="{v2}"')
+                    kconfig_lines.append(f'SB_CONFIG_SUIT_MPI_{CONFIGURABLE[donor]}_CLASS_NAME="{c2}"')
+                    names[donor] = (v2, c2)
+                else:
+                    names.pop(donor, None)
     chosen = [r for r in chosen if r in names]
     if not chosen:
         return None
